@@ -443,6 +443,10 @@ class ProjectHistory:
         self.order.remove(run)
         del self.hashes[run]
         self.tags.add("delete:old-run-removed")
+        if step.get("then_optimize"):
+            self.check_runs_intact()
+            self._optimize({"op": "optimize", "name": name})
+            self.tags.add("delete:then-rerun")
 
     def _reopen(self, step):
         from glotaran.project import Project
@@ -674,10 +678,11 @@ def _machine(focus: str):
 
         if focus == "runs":
 
-            @precondition(lambda self: self.h is not None and len(self.h.order) >= 2)
-            @rule(name=st.sampled_from(RESULT_NAMES), index=st.integers(0, 5))
-            def delete_old_run(self, name, index):
-                self._step({"op": "delete_old_run", "name": name, "index": index})
+            @precondition(lambda self: self.h is not None and any(len(self.h.alive(n)) >= 2 for n in RESULT_NAMES))
+            @rule(pick=st.integers(0, 4), index=st.integers(0, 5), rerun=st.booleans())
+            def delete_old_run(self, pick, index, rerun):
+                names = [n for n in RESULT_NAMES if len(self.h.alive(n)) >= 2]
+                self._step({"op": "delete_old_run", "name": names[pick % len(names)], "index": index, "then_optimize": rerun})
 
             @precondition(lambda self: self.h is not None)
             @rule(how=st.sampled_from(["open_folder", "open_file", "create_refused", "create_overwrite"]))
@@ -733,6 +738,33 @@ def _machine(focus: str):
     return ProjectMachine
 
 
+ENUM_OPS = {
+    "quick": [{"op": "optimize", "name": "m"}, {"op": "optimize", "name": "m_run_x"}, {"op": "delete_old_run", "name": "m", "index": 0}],
+    "thorough": [{"op": "optimize", "name": "m"}, {"op": "optimize", "name": "m_run_x"}, {"op": "optimize", "name": "m_run_1"},
+                 {"op": "delete_old_run", "name": "m", "index": 0}],
+}
+ENUM_LEN = {"quick": 4, "thorough": 5}
+
+
+def runs_enum_cases(tier: str) -> list:
+    import itertools
+
+    ops = ENUM_OPS[tier]
+    return [{"focus": "runs", "steps": [{"op": "init"}] + [ops[i] for i in seq]}
+            for seq in itertools.product(range(len(ops)), repeat=ENUM_LEN[tier])]
+
+
+def prop_runs_enum(case):
+    h = ProjectHistory(case.get("focus", "runs"))
+    try:
+        for step in case["steps"]:
+            h.apply(step)
+        h.finish()
+        return {"nontrivial": h.nontrivial(), "tags": sorted(h.tags) + [f"runs={len(h.order)}"]}
+    finally:
+        h.close()
+
+
 def _replay(focus: str):
     def replay_steps(case):
         h = ProjectHistory(case.get("focus", focus))
@@ -763,6 +795,9 @@ PROPERTY = Property(
     subs=[
         Sub("matrix", prop=prop_matrix, enumerate=matrix_cases, exhaustive=True,
             doc="every glotaran.io.save_* x every registered format (+unknown, +failing harness plugin) x 4 target states x allow_overwrite x explicit/inferred"),
+        Sub("runs_enum", prop=prop_runs_enum, enumerate=runs_enum_cases, exhaustive=True,
+            doc="every sequence of length 4 (quick; thorough 5) over optimize(m) / optimize(m_run_x) [/ optimize(m_run_1)] / user deletes the "
+                "oldest run of m: run numbers, listing, earlier runs unchanged and loadable"),
         Sub("project_runs", machine=lambda: _machine("runs"), replay_steps=_replay("runs"),
             budget={"quick": 128, "thorough": 1600}, steps={"quick": 12, "thorough": 25},
             doc="run numbering, storage, earlier runs unchanged and loadable, flag handling of import_data / generate_* / Project.create"),
